@@ -3,7 +3,7 @@ import hashlib
 from .common import load_corpus, rbytes
 from . import scriptgen as G
 
-MAKE_TARGETS = ['Proofs/ScriptFull.vo']
+MAKE_TARGETS = ['Proofs/ScriptFull.vo', 'Proofs/ScriptBounds.vo']
 TIES = []
 ALLOWED_AXIOMS = []
 PARTIAL = ['memory safety / error-queue state of the ctypes-OpenSSL calls inside _CheckSig cannot be exhibited by the model: the '
@@ -11,7 +11,11 @@ PARTIAL = ['memory safety / error-queue state of the ctypes-OpenSSL calls inside
            'but nothing is proved about OpenSSL',
            'side-effect freedom is a triviality of the functional MODEL; on IMPL it is observed (serialisation, element identities, '
            'script bytes before/after every call); the heap-level theorem is C09_sighash_frame',
-           'the bounds on the state captured in EvalScriptError are checked on IMPL only (the model does not carry the state in its error value)']
+           'the state captured in EvalScriptError: the theorems C07_error_state_bounds / C07_verify_error_state_bounds bound the state returned '
+           'by the instrumented interpreter Model/ScriptEvalSt.v (proved to have exactly the outcomes of the uninstrumented model); that this '
+           'is the state IMPL captures (where each raise sits relative to the stack / nOpCount updates) is checked by correspondence on every '
+           'case (Run/C07.v recomputes [items, nOpCount, pbegincodehash, sop_pc, len(scriptIn)]), not proved; the three EvalScriptErrors raised '
+           'outside the loop (script too large, unterminated IF, CScriptInvalidError wrapper) capture only `stack`, which is not bounded by a theorem']
 ASSUMPTIONS = ['input indices are naturals (negative inIdx is outside the property)',
                'signature-check oracle arbitrary with checksig [] _ _ = false; hash outputs shorter than 2^31 bytes']
 RULE = ('uniformly random byte strings of length 0..10,001 for both scripts, structure-aware programs and their byte-level '
@@ -91,6 +95,38 @@ def generate(rng, tier, boost):
         add(b'\x00' * n, b'\x51')
         add(b'\x01\x07' * n, b'\x75' * 3 + b'\x6a')
         add(b'\x51', b'\x00' * (n - 200) + b'\x6b' * 150 + b'\x00' * 200 + b'\x6a')
+    # where each raise sits relative to the state updates (the captured state is compared with the
+    # instrumented model, Model/ScriptEvalSt.v): _CheckMultiSig's own MaxOpCountError after
+    # `nOpCount[0] += keys_count` (201 + 20 attained), its NULLDUMMY failure after the pops, the
+    # VERIFY variant failing before them; PICK / ROLL after popping the index; multi-item appends
+    # at 997..1000 items (1000 + 3 attained); failures after a CODESEPARATOR
+    def addf(ssig, spk, f):
+        cases.append((701, [ssig, spk, f, rng.randrange(12)]))
+    for nk in (0, 1, 3, 19, 20):
+        keys = b''.join(G.push(b'k' + bytes([k])) for k in range(nk))
+        for nops in (179, 180, 181, 199, 200, 201):
+            for opc in (b'\xae', b'\xaf'):
+                for f in (0, 1, 2):
+                    addf(b'', b'\x61' * nops + b'\x00\x00' + keys + G.push_num(nk) + opc, f)
+                    addf(b'', b'\x61' * nops + G.push_num(nk) + opc, f)          # keys missing: raised after the addition
+    for dummy in (b'\x00', b'\x51', b'\x01\x00'):
+        for f in (0, 1, 2, 3):
+            addf(b'\x51\x52', dummy + b'\x00\x00\xae', f)
+            addf(b'\x51\x52', dummy + G.push(b's\x01') + b'\x51' + G.push(b'k') + b'\x51\xaf', f)
+            addf(b'\x51\x52', dummy + G.push(b's\x01') + b'\x51' + G.push(b'k') + b'\x51\xae', f)
+    for idx in (b'\x4f', b'\x00', b'\x51', b'\x52', b'\x53', b'\x05\x01\x02\x03\x04\x05'):
+        for opc in (b'\x79', b'\x7a'):
+            addf(b'\x51\x52', idx + opc, rng.randrange(16))
+            addf(b'', idx + opc, rng.randrange(16))
+    for n in (996, 997, 998, 999, 1000):
+        for opc in (b'\x6f', b'\x6e', b'\x70', b'\x7d', b'\x76', b'\x73', b'\x74', b'\x82', b'\x6c', b'\x78'):
+            addf(b'\x51' * n, opc, rng.randrange(16))
+            addf(b'\x51' * (n - 2), b'\x6b\x6b' + opc, rng.randrange(16))
+            addf(b'\x51' * (n - 1), b'\x6b' + opc + b'\x6c', rng.randrange(16))
+    for tail in (b'\x6a', b'\x75', b'\x69', b'\x88', b'\xab\x6a', b'\x51\x55\x79', b'\x67', b'\x68', b'\xff', b'\x7e', b'\xb1'):
+        addf(b'\x51', b'\x61\xab' + tail, rng.randrange(16))
+        addf(b'\x51', b'\x02\xab\xab\xab\x75' + tail, rng.randrange(16))
+        addf(b'\x51', b'\x00\x63\xab\x68\xab\x61' + tail, rng.randrange(16))
     # signature checks that reach the signature-hash code with every base hash type, on every kind of
     # transaction (mutable / immutable, other inputs signed / unsigned): nothing may be modified
     pk = b'\x02' + bytes(range(1, 33))
